@@ -70,8 +70,8 @@ impl Scenario for C17Twin {
     }
     fn runs(&self, tier: Tier) -> u64 {
         match tier {
-            Tier::Quick => 2_500,
-            Tier::Thorough => 150_000,
+            Tier::Quick => 10_000,
+            Tier::Thorough => 600_000,
         }
     }
     fn describe(&self) -> &'static str {
@@ -154,7 +154,7 @@ impl Scenario for C17Twin {
                 let sbus = match SerialSignBus::try_new(port) {
                     Ok(b) => Rc::new(RefCell::new(b)),
                     Err(e) => {
-                        cx.fail("C17/harness-try-new-failed", format!("{e}"));
+                        cx.discard("try-new-failed");
                         sched.close_pipe(0);
                         return;
                     }
@@ -170,6 +170,24 @@ impl Scenario for C17Twin {
                     let twin = Sign::new(tbus.clone(), st.addr, st.ty);
                     cx.note(|| format!("op #{k}: controller({:#06x}, {:?}).{}", st.addr.0, st.ty, st.op.name()));
                     let out_serial = ops::apply(&sign, &st.op);
+                    if sched.stalled().is_some() {
+                        // The serial path did not finish within the step budget. That is a
+                        // divergence only if the same operation does finish directly on the bus.
+                        {
+                            let mut t = twin_world.lock();
+                            t.delivery_cap = t.delivered + 20_000;
+                        }
+                        let out_twin = ops::apply(&twin, &st.op);
+                        if twin_world.lock().capped {
+                            cx.probe("operation_ends_on_neither_path");
+                        } else {
+                            cx.fail(
+                                "C17/serial-path-does-not-finish",
+                                format!("op #{k} {} returned {out_twin:?} directly on the bus but did not finish over the serial path within the step budget", st.op.name()),
+                            );
+                        }
+                        break;
+                    }
                     // let the bridge drain whatever is still in the line
                     sched.wait_quiescent(me);
                     let backlog = sched.pipe_len(0);
@@ -214,7 +232,7 @@ impl Scenario for C17Twin {
                 let mut odk = match Odk::try_new(port, DirectBus(serial_world)) {
                     Ok(o) => o,
                     Err(e) => {
-                        cx.fail("C17/harness-try-new-failed", format!("{e}"));
+                        cx.discard("try-new-failed");
                         return;
                     }
                 };
@@ -246,8 +264,8 @@ impl Scenario for C17Twin {
         if report.stalled == Some("watchdog") {
             panic!("scheduler watchdog fired");
         }
-        if let Some(why) = report.stalled {
-            cx.fail(format!("C17/liveness-{why}"), format!("the two nodes did not finish within {} scheduler steps", report.steps));
+        if report.stalled.is_some() {
+            cx.probe("run_cut_at_step_cap");
         }
         cx.add_sim_ns(report.clock_ns);
         cx.distinct2(report.sched_hash);
@@ -291,8 +309,8 @@ impl Scenario for C17Bridge {
     }
     fn runs(&self, tier: Tier) -> u64 {
         match tier {
-            Tier::Quick => 15_000,
-            Tier::Thorough => 1_000_000,
+            Tier::Quick => 100_000,
+            Tier::Thorough => 10_000_000,
         }
     }
     fn describe(&self) -> &'static str {
@@ -357,7 +375,7 @@ impl Scenario for C17Bridge {
         let mut odk = match Odk::try_new(port, rec) {
             Ok(o) => o,
             Err(e) => {
-                cx.fail("C17/harness-try-new-failed", format!("{e}"));
+                cx.discard("try-new-failed");
                 return cx.verdict();
             }
         };
